@@ -49,9 +49,30 @@ def mk_case(cid, lit, mode):
     return Case(cid, lines, {"lit": lit, "mode": mode, "text": text, "unspecified": unspecified(text)})
 
 
+NEST_BAD = [b"s = 'abc", b's = "abc', b's = "\\400"', b"/* open", b's = "\\9"', b"s = 'a\\", b"sl = {'x', \"y"]
+
+
+def mk_nested(cid, lit, mode, bad, where):
+    """the same literal, read after a callback of the running parse has parsed (into context 1) a text that is rejected in
+    the middle of a string or comment: the forms of the outer text denote what they denote on their own"""
+    c = mk_case(cid, lit, mode)
+    arg = (b"nest:" + bad).replace(b"\\", b"\\\\").replace(b'"', b'\\"')
+    call = b'hook("' + arg + b'")\n'
+    text = call + c.meta["text"] if where == 0 else c.meta["text"] + call + c.meta["text"]
+    lines = schema_lines(SCHEMA + [Opt("hook", "func", 0, None, "U")])
+    for n, v in ENVS:
+        lines.append("ENV %s %s" % (hx(n), hx(v)))
+    lines += ["X 0 0", "X 1 0", "PB 0 " + hx(text), "D 0"]
+    return Case(cid, lines, {"lit": lit, "mode": mode, "text": text, "unspecified": unspecified(text), "nested": True})
+
+
 def generate(rng, tier):
     cases = []
     n = 0
+    for k in range(400 if tier == "quick" else 6000):
+        L = rng.randint(0, 6)
+        lit = b"".join(rng.choice(ATOMS) for _ in range(L))
+        cases.append(mk_nested("k%d" % k, lit, rng.choice(("dq", "sq", "un", "li")), NEST_BAD[k % len(NEST_BAD)], k % 2))
     maxlen = 2 if tier == "quick" else 3
     core = [a for a in ATOMS if a in (b'"', b"'", b"\\", b"$", b"{", b"}", b":", b"-", b"0", b"7", b"8", b"x", b"n", b"\n", b" ", b"#", b"A")
             or a.startswith(b"${") or a == b"\\\n"]
@@ -76,6 +97,8 @@ def project(lines, case):
         return [l for l in lines if l.startswith("H ")]
     out = []
     for l in lines:
+        if l.startswith("T "):
+            continue        # the harness' own report about the nested parse
         if l.startswith("R ") or l.startswith("H "):
             out.append(l)
         elif l.startswith("V 0 73 ") or l.startswith("V 0 736c ") or l.startswith("V 0 69 "):
